@@ -7,7 +7,7 @@ func init() {
 		ID: "C14",
 		Explain: "The alignment semantics over all histories is NOT decided (it quantifies over sequences of feeds). Decided are structural necessary conditions of it, on every path of the code: " +
 			"(MARK) stop times and trips are marked past only while unmarked, with the feed's time; (UPD) StopTime.update assigns every field on every path, from the update's stop id, arrival, departure and track, the feed time, and clears MarkedPast; " +
-			"(PART) Trip.update partitions the trip's current list against this update's stop time updates; entries before the first updated stop are only marked past; every aligned entry is refreshed by StopTime.update on every path; the list is trimmed to len(past)+len(updated); the remaining updates are appended at the tail in order; between createPartition and the end of the mark / refresh loops the list is not given another backing array, directly or by a helper called in between (the partition points into it); in the pairing loop of createPartition the outcome `stop ids differ` leaves the loop; createPartition searches the update's first stop in the whole list by stop id only, past is the prefix before it, aligned pairs point into the journal's own list, new is the tail of the updates. " +
+			"(PART) Trip.update partitions the trip's current list against this update's stop time updates; entries before the first updated stop are only marked past; every aligned entry is refreshed by StopTime.update on every path; the list is trimmed to len(past)+len(updated); the remaining updates are appended at the tail in order; createPartition precedes every return of an applied update (an update without stop time updates is partitioned too); between createPartition and the end of the mark / refresh loops the list is not given another backing array, directly or by a helper called in between (the partition points into it); in the pairing loop of createPartition the outcome `stop ids differ` leaves the loop; createPartition searches the update's first stop in the whole list by stop id only, past is the prefix before it, aligned pairs point into the journal's own list, new is the tail of the updates. " +
 			"These are the places where each clause of the property is implemented; breaking one breaks the behaviour, but their conjunction is not claimed to imply it.",
 		Rules: []Rule{
 			{Name: "ACCT", Doc: "an update is applied unless the trip is assigned and the update carries no vehicle (tested on the vehicle itself); the stop times of an applied update are always processed", MinInstances: 1, Run: func(c *Ctx) {
